@@ -5,6 +5,7 @@
 (* Event: [id, pre, act, out, post, copy, indep]                           *)
 (*   pre/post : projected universe (TaskGraph) before/after the call       *)
 (*   act      : [name |-> "Clone" | "Subtree", w, seq]  (seq: the roots)   *)
+(*              or [name |-> "Flat", w, seq]: WBS(tasks = seq), see below   *)
 (*   copy     : the returned WBS as the getters report it; task j of the    *)
 (*              copy (depth-first numbering) has                           *)
 (*                src[j]  : the source task with the same id (0 = none)     *)
@@ -35,7 +36,33 @@ SameUniverse(A, B) ==
     /\ A.par = B.par /\ A.ch = B.ch /\ A.own = B.own /\ A.attr = B.attr
     /\ \A t \in Task : Ran(A.pre[t]) = Ran(B.pre[t]) /\ Ran(A.suc[t]) = Ran(B.suc[t])
 
-Judge(e) ==
+(***************************************************************************)
+(* The constructor form WBS(tasks = seq), seq any tasks of the universe    *)
+(* (attached anywhere or nowhere, repeated, of several trees): the new WBS  *)
+(* has one root per element of seq, in that order, each a new object with   *)
+(* the id and field values of the element and nothing else - no children,   *)
+(* no links, the new WBS as owner; the universe is untouched. Two elements  *)
+(* with one id (the same task twice included) cannot be roots of one WBS:   *)
+(* the call is refused. No listed property states this; differences are     *)
+(* reported under DRIFT.* and never count as violations.                    *)
+(***************************************************************************)
+FlatOk(a) == \A i, j \in DOMAIN a.seq : IdOf[a.seq[i]] = IdOf[a.seq[j]] => i = j
+JudgeFlat(e) ==
+    LET a == e.act
+        C == e.copy
+        J == DOMAIN C.src
+    IN
+    /\ Report((e.out = "ok") <=> FlatOk(a), e, "DRIFT.flat.outcome", e.out)
+    /\ Report(SameUniverse(e.pre, e.post), e, "DRIFT.flat.source", 0)
+    /\ \A i \in DOMAIN e.indep : Report(e.indep[i], e, "DRIFT.flat.independent", i)
+    /\ e.out = "ok" =>
+       /\ Report(C.src = a.seq, e, "DRIFT.flat.members", C.src)
+       /\ Report(C.roots = [i \in J |-> i], e, "DRIFT.flat.roots", C.roots)
+       /\ Report(\A j \in J : C.kids[j] = <<>> /\ C.pre[j] = <<>> /\ C.suc[j] = <<>>, e, "DRIFT.flat.bare", 0)
+       /\ Report(\A j \in J : C.fresh[j] /\ C.own[j] /\ C.same[j], e, "DRIFT.flat.tasks", 0)
+       /\ Report(C.sep, e, "DRIFT.flat.wbs", 0)
+
+JudgeCopy(e) ==
     LET c == Core(e.pre)
         a == e.act
         C == e.copy
@@ -61,6 +88,8 @@ Judge(e) ==
           /\ Report(\A j \in J : Ran(C.pre[j]) = ExpLinks(c.pre, j), e, "C10.predecessors", 0)
           /\ Report(\A j \in J : Ran(C.suc[j]) = ExpLinks(suc, j), e, "C10.successors", 0)
           /\ Report(C.mirror, e, "C10.mirror", 0)
+
+Judge(e) == IF e.act.name = "Flat" THEN JudgeFlat(e) ELSE JudgeCopy(e)
 
 Init == k = 1
 Next == /\ k <= Len(Batch)
